@@ -137,3 +137,46 @@ pub fn embedded_clocks(forms: &[Node]) -> Vec<u64> {
     }
     out
 }
+
+/// Pieces of text the code generator itself writes (every symbol and every small form of a few
+/// sample programs, and their unterminated prefixes): user strings that coincide with them must
+/// still be plain data.
+pub fn harvest_fragments() -> Vec<String> {
+    use crate::subject::{compile_render, options, parse_real, C, P};
+    let mut out = std::collections::BTreeSet::new();
+    for src in [
+        "-name a -print",
+        "-name a -o -iname b -print0 -quit",
+        "-pool p -xattr x -fprint f -fprintf g '%p %s\\n' -print-file-fid",
+        "-mmin -5 -size +1k -perm -600 -type f,d -uid 0",
+        "-xattr-match k v -printf '%u'",
+    ] {
+        if let P::Ok(o, e) = parse_real(src) {
+            for (depth, threads) in [(false, None), (true, Some(2))] {
+                let _ = o;
+                if let C::Ok((text, _)) = compile_render(&e, &options(depth, threads), "/dev/mdt0") {
+                    if let Ok(forms) = speclib::scm::reader::read_all(&text) {
+                        for f in &forms {
+                            f.walk(&mut |n| {
+                                if let Some(s) = n.as_sym() {
+                                    out.insert(s.to_string());
+                                } else if let Some(items) = n.as_list() {
+                                    let shown = n.show();
+                                    if items.len() <= 3 && shown.len() <= 48 {
+                                        out.insert(shown.clone());
+                                        // an unterminated prefix, as a text search would look for
+                                        if let Some(h) = items.first().and_then(|h| h.as_sym()) {
+                                            out.insert(format!("({h} "));
+                                            out.insert(format!("({h}"));
+                                        }
+                                    }
+                                }
+                            });
+                        }
+                    }
+                }
+            }
+        }
+    }
+    out.into_iter().filter(|s| !s.is_empty()).collect()
+}
